@@ -556,7 +556,16 @@ func fetchExternalData(
 		return nil
 	}
 
-	resp, err := fetchClient.Get(rawURL)
+	req, err := http.NewRequest(http.MethodGet, rawURL, nil)
+	if err != nil {
+		return nil, fmt.Errorf("GET %s failed", redactExternalURL(rawURL))
+	}
+	// Name the codings ourselves: left to its default, Go's transport asks for
+	// gzip and inflates the answer transparently, so neither max_fetch_bytes
+	// (counted on decoded bytes) nor max_decompressed_bytes (never consulted)
+	// applied to a gzip response.
+	req.Header.Set("Accept-Encoding", "zstd, gzip")
+	resp, err := fetchClient.Do(req)
 	if err != nil {
 		if strings.Contains(err.Error(), "redirect limit") {
 			return nil, fmt.Errorf("external fetch redirect limit (%d) exceeded", maxRedirects)
@@ -584,10 +593,16 @@ func fetchExternalData(
 	}
 
 	// Decompress if needed
-	if resp.Header.Get("Content-Encoding") == "zstd" {
+	switch resp.Header.Get("Content-Encoding") {
+	case "zstd":
 		data, err = decompressZstdCapped(data, maxDecompressedBytes)
 		if err != nil {
 			return nil, fmt.Errorf("decompressing zstd data from %s exceeds max_decompressed_bytes=%d: %w", redactExternalURL(rawURL), maxDecompressedBytes, err)
+		}
+	case "gzip":
+		data, err = decompressBounded("gzip", data, maxDecompressedBytes)
+		if err != nil {
+			return nil, fmt.Errorf("decompressing gzip data from %s exceeds max_decompressed_bytes=%d: %w", redactExternalURL(rawURL), maxDecompressedBytes, err)
 		}
 	}
 
@@ -924,17 +939,20 @@ func FetchWithParallelRangeRequests(client *http.Client, rawURL string, cfg *Fet
 func fetchSimple(client *http.Client, rawURL string, cfg *FetchConfig) ([]byte, error) {
 	resp, err := client.Get(rawURL)
 	if err != nil {
-		return nil, err
+		// The transport error quotes the full URL; report the redacted one, as
+		// fetchExternalData does, so credentials and query strings stay out
+		// of error text.
+		return nil, fmt.Errorf("GET %s failed", redactExternalURL(rawURL))
 	}
 	defer resp.Body.Close()
 
 	if resp.StatusCode != http.StatusOK {
-		return nil, fmt.Errorf("GET %s: status %d", rawURL, resp.StatusCode)
+		return nil, fmt.Errorf("GET %s: status %d", redactExternalURL(rawURL), resp.StatusCode)
 	}
 
 	data, err := io.ReadAll(resp.Body)
 	if err != nil {
-		return nil, err
+		return nil, fmt.Errorf("reading external response body from %s", redactExternalURL(rawURL))
 	}
 
 	if int64(len(data)) > cfg.MaxFetchBytes {
